@@ -51,6 +51,9 @@ def viz_case(draw, max_tasks=7):
         if draw(st.integers(0, 5)) == 0:
             cu['gantt_open'] = draw(st.sampled_from(['true', 'false']))
         t['custom'] = cu
+    c['options'] = dict(title=draw(st.sampled_from([None, 'Plan 2026', 'Q1'])), weekends=draw(st.booleans()),
+                        tick=draw(st.sampled_from([None, '1day', '1week'])), scale=draw(st.sampled_from(['day', 'month', 'year', 'other'])),
+                        columns=draw(st.booleans()), today=draw(st.booleans()), height=draw(st.sampled_from([300, 450])))
     c['plain_names'] = draw(st.integers(0, 5)) == 0
     if c['plain_names']:
         for t in c['spec']['tasks']:
@@ -184,9 +187,13 @@ WRAP = ('<iframe srcdoc="{html}" width="100%" height="{height}" style="border:no
         'allowfullscreen webkitallowfullscreen mozallowfullscreen></iframe>')
 
 
-def render_all(sw):
-    from pjplan import MermaidGantt, MermaidNetwork, DhtmlxGantt
-    return MermaidGantt(sw), MermaidNetwork(sw), DhtmlxGantt(sw)
+def render_all(sw, opt=None):
+    from pjplan import MermaidGantt, MermaidNetwork, DhtmlxGantt, DhtmlxGanttColumn
+    o = opt or {}
+    cols = [DhtmlxGanttColumn('name', 200, 'Task', True), DhtmlxGanttColumn('start', 80), DhtmlxGanttColumn('estimate', 50, 'h')] if o.get('columns') else None
+    return (MermaidGantt(sw, height=o.get('height', 300), weekends=o.get('weekends', False), tick_interval=o.get('tick'), title=o.get('title')),
+            MermaidNetwork(sw, height=o.get('height', 300)),
+            DhtmlxGantt(sw, height=o.get('height', 300), today_marker=o.get('today', True), columns=cols, scale=o.get('scale', 'day')))
 
 
 def analyse(o, v, tag=''):
@@ -195,7 +202,7 @@ def analyse(o, v, tag=''):
     sw = o.sw
     tasks = list(sw.tasks)
     ids = [str(t.id) for t in tasks]
-    mg, mn, dg = render_all(sw)
+    mg, mn, dg = render_all(sw, o.case.get('options'))
     out = {}
     name_kind = lambda: 'adversarial-names' if not o.case.get('plain_names') else 'plain-names'
     # ---- Mermaid Gantt
@@ -321,7 +328,7 @@ def check(case, exclude=True):
     names = [t['name'] for t in case['spec']['tasks']]
     # ---- metamorphic: names replaced by "x"
     if not res.viol:
-        charts = render_all(o.sw)
+        charts = render_all(o.sw, case.get('options'))
         shown_before = [c._repr_html_() for c in charts]          # a notebook shows the charts ...
         for t in o.sw.tasks:
             t.name = 'x'                                          # ... the plan is edited ...
